@@ -51,8 +51,17 @@ inline RunResult runApi(const SolverCfg& cfg, int gridFile, const std::string& f
         return r;
     }
     try {
-        cfg.select(*s);
-        cfg.applyOptions(*s);
+        if (cfg.via_cli) {
+            std::vector<std::string> a = cfg.argvAll();
+            std::vector<char*> argv;
+            for (auto& x : a)
+                argv.push_back(const_cast<char*>(x.c_str()));
+            s->setParameters((int)argv.size(), argv.data());
+        }
+        else {
+            cfg.select(*s);
+            cfg.applyOptions(*s);
+        }
         if (gridFile) {
             s->load_grid_file(true);
             s->file_grid_radii(fr);
@@ -441,6 +450,14 @@ inline KV genOptionsCase()
         s.strategy      = rint(0, 29) == 0 ? rpick({-1, 2}) : rint(0, 1);
         s.cache_coef    = rint(0, 7) != 0;
         s.cache_geom    = rint(0, 7) != 0;
+        // the whole record through setParameters(argc, argv) as src/main.cpp does - only records the parser accepts (an
+        // out-of-range value makes the command-line parser print the usage text and exit(), which is its contract)
+        {
+            auto in = [](int v, int lo, int hi) { return v >= lo && v <= hi; };
+            const bool parserAccepts = in(s.cycle, 0, 2) && in(s.fmg_cycle, 0, 2) && in(s.extrapolation, 0, 3) && in(s.norm, 0, 2) && in(s.strategy, 0, 1) &&
+                                       s.nr_exp >= 1;
+            s.via_cli = parserAccepts ? rint(0, 1) : 0;
+        }
         s.put(c);
         c.putI("grid_file", rweighted({8, 1, 1, 1, 1, 1}));
         c.putI("verbose2", rweighted({1, 1, 1})); // verbosity of the second run (the first one is silent)
